@@ -5,7 +5,9 @@
    events  {"e":"deliver", "k":n, "app":[bytes given to the wrapped protocol during this call],
             "close":"no"|"lose"|"exc"  (loseConnection requested / exception escaped dataReceived),
             "peer":[type,host,port], "host":[..]   as the wrapped protocol sees them after the call,
-            "one": {"app","close","peer","host"}   a fresh connection given the whole prefix at once} *)
+            "seen":[[peer,host],..]   the same, read INSIDE each dataReceived of the wrapped protocol,
+            "one": {"app","close","peer","host","seen"}   a fresh connection given the whole prefix at once}
+           {"e":"lost", "peer", "host"}    read inside the wrapped protocol's connectionLost at the end *)
 EXTENDS ProxyHdr, TLC, Json, IOUtils
 
 Traces == JsonDeserialize(IOEnv.TRACE_FILE)
@@ -21,18 +23,27 @@ TInit == /\ tid \in 1..Len(Traces) /\ l = 1
 Step(A) == /\ l <= Len(T.ev) /\ A /\ Inv' /\ l' = l + 1 /\ UNCHANGED tid
 
 Closes == {"lose", "exc"}
+\* seen = <<peer, host>> as read by the wrapped protocol INSIDE each of its dataReceived calls: application bytes only
+\* arrive once a valid header is complete, so from the first application byte on every observation -- also the one
+\* made while the bytes that share a segment with the end of the header are being delivered -- is the header's addresses
+SeenOK(seen) == \A i \in 1..Len(seen) : Valid /\ seen[i][1] = ExpPeer /\ seen[i][2] = ExpHost
+\* what the wrapped protocol reads in its connectionLost, at the end of the run
+TLost == /\ E.e = "lost" /\ l <= Len(T.ev) /\ l' = l + 1 /\ UNCHANGED <<vars, tid>>
+         /\ AddrOK(consumed, E.peer, E.host)
 TDeliver == /\ E.e = "deliver"
             /\ E.close \in Closes \cup {"no"}
             /\ Step(Deliver(E.k, E.close \in Closes))
             /\ E.app = last'.app
             /\ AddrOK(consumed', E.peer, E.host)
+            /\ SeenOK(E.seen)
             \* the one-piece run of the same prefix obeys the same relation, hence sees the same bytes
             /\ E.one.close \in Closes \cup {"no"}
             /\ StepOK(0, consumed', E.one.app, E.one.close \in Closes)
             /\ AddrOK(consumed', E.one.peer, E.one.host)
+            /\ SeenOK(E.one.seen)
             /\ E.one.app = delivered'
 
-TNext == TDeliver
+TNext == TDeliver \/ TLost
 TSpec == TInit /\ [][l <= Len(T.ev) /\ TNext]_<<vars, tid, l>>
 
 Progress == TLCSet(tid, IF TLCGet(tid) > l THEN TLCGet(tid) ELSE l)
